@@ -96,6 +96,8 @@ FIELD_SORTS = {
     "getattr": FN, "setattr": FN, "post_setattr": FN, "py_post_setattr": Obj, "validate": FN, "py_validate": Obj,
     "default_value_type": INT, "default_value": Obj, "delegate_name": Obj, "delegate_prefix": Obj,
     "delegate_attr_name": FN, "handler": Obj,
+    # PyTypeObject slots called through
+    "tp_getattro": FN,
     # PyTypeObject (only ever passed on to message formatting)
     "tp_name": Obj,
 }
@@ -112,7 +114,7 @@ def sort_of_ctype(q):
     if q == "double":
         return F64
     if "(*)" in q or q in ("trait_getattr", "trait_setattr", "trait_post_setattr", "trait_validate",
-                           "delegate_attr_name_func", "void *"):
+                           "delegate_attr_name_func", "getattrofunc", "void *"):
         return FN if q != "void *" else None
     if q.endswith("*"):
         return Obj
@@ -442,6 +444,67 @@ class CExec:
             return out
         return after_init(st)
 
+    def invariant_loop(self, s, st, modified, inv, variant=None, heap=True, name="loop"):
+        """Hoare rule for a C loop, for any number of iterations.
+        modified: {local name: z3 sort} of the locals the body assigns (havocked at the loop head);
+        inv(ex, st, entry) -> [(clause name, z3 Bool)] over a state (entry = state after the init statement);
+        variant(ex, st) -> Int term that must decrease and stay >= 0 on every back edge (termination), or None.
+        Obligations inv-init:* at entry and inv-keep:* on every back edge; the paths that leave the loop (break / return /
+        condition false) continue from the *arbitrary* iteration, i.e. from a state about which only the invariant is known.
+        heap=True: the loop head also forgets every field / dict / list (the body runs Python code)."""
+        kind = s["kind"]
+        if kind == "ForStmt":
+            init, _cv, cond, inc, body = (s["inner"] + [None] * 5)[:5]
+        else:
+            init, inc = None, None
+            cond, body = s["inner"][0], s["inner"][1]
+        cx = self.cx
+
+        def at_head(st1):
+            for (n, c) in inv(self, st1, st1):
+                cx.side_obligations.append(("inv-init#%s:%s" % (name, n), list(st1.pc), c, {}))
+            sth = self.api.havoc(st1, "loop-head:" + name) if heap else st1.log(("python", "loop-head:" + name))
+            for ln, srt in modified.items():
+                sth = sth.set(ln, cx.fresh("lh_" + ln, srt))
+            if sth.own is not None:
+                sth = sth.with_own(cx.fresh("own_lh", sth.own.sort()))
+            sth = sth.with_exc(cx.fresh("exc_lh", INT))
+            sth = sth.assume(*[c for (_n, c) in inv(self, sth, st1)])
+            v0 = variant(self, sth) if variant is not None else None
+
+            def close(st6):
+                for (n, c) in inv(self, st6, st1):
+                    cx.side_obligations.append(("inv-keep#%s:%s" % (name, n), list(st6.pc), c, {}))
+                if v0 is not None:
+                    v1 = variant(self, st6)
+                    cx.side_obligations.append(("inv-keep#%s:variant-decreases" % name, list(st6.pc), z3.And(v1 >= 0, v1 < v0), {}))
+                return []
+
+            def k_c(c, st3):
+                def go(st4):
+                    out = []
+                    for (kd, payload, st5) in self.stmt(body, st4):
+                        if kd in ("next", "continue"):
+                            if inc and inc.get("kind"):
+                                out += self.ev(inc, st5, lambda _v, st6: close(st6))
+                            else:
+                                out += close(st5)
+                        elif kd == "break":
+                            out.append(("next", None, st5))
+                        else:
+                            out.append((kd, payload, st5))
+                    return out
+                return cx.branch(st3, truth(c), go, lambda b: [("next", None, b)])
+            if cond and cond.get("kind"):
+                return self.ev(cond, sth, k_c)
+            return k_c(z3.BoolVal(True), sth)
+        if init and init.get("kind"):
+            out = []
+            for (kd, payload, st1) in self.stmt(init, st):
+                out += at_head(st1) if kd == "next" else [(kd, payload, st1)]
+            return out
+        return at_head(st)
+
     # ------------------------------------------------------------------ expressions
     def coerce(self, v, qual):
         srt = sort_of_ctype(qual)
@@ -767,6 +830,8 @@ class CExec:
         if f.get("kind") == "DeclRefExpr" and f["referencedDecl"].get("kind") == "FunctionDecl":
             name = f["referencedDecl"]["name"]
             return self.ev_list(argn, st, lambda args, st2: self.call_named(name, args, st2, k))
+        if f.get("kind") == "UnaryOperator" and f.get("opcode") == "*" and strip(f["inner"][0]).get("kind") == "MemberExpr":
+            f = strip(f["inner"][0])             # (*tp->slot)(...) is tp->slot(...)
         if f.get("kind") == "MemberExpr":
             fld = f["name"]
             h = self.cx.field_call.get(fld)
